@@ -223,7 +223,8 @@ pub fn random_op(rng: &mut Rng, names: &[String]) -> Op {
         1 => Op::GetVersion,
         2 | 3 => Op::SetMathml(match rng.below(10) {
             0..=3 => ExprRef::Pool(rng.below(n_valid)),
-            4 | 5 => ExprRef::Corpus(rng.below(pools::corpus().len())),
+            4 => ExprRef::Corpus(rng.below(pools::corpus().len())),
+            5 => gen_expr(rng),
             6 => ExprRef::Feedback,
             _ => ExprRef::Bad(rng.below(pools::INVALID_EXPRS.len())),
         }),
